@@ -342,6 +342,8 @@ class Interp:
             raise PyRaise(e)
 
     def _call_pyfunc(self, func, args, kwargs, orig):
+        if getattr(func, "_pyvc_native", False):
+            return self.native(func, args, kwargs)
         info = extract.function_from_object(func)
         if info is not None:
             rel, qn, _node = info
@@ -391,6 +393,22 @@ class Interp:
     def instantiate(self, cls, args, kwargs):
         """Create a symbolic-heap instance of a real class and run its real __init__."""
         obj = SObj(cls, name=cls.__name__.lower())
+        import dataclasses
+        if dataclasses.is_dataclass(cls) and "__init__" in cls.__dict__ and extract.function_from_object(cls.__init__) is None \
+                and not hasattr(cls, "__post_init__"):
+            flds = [f for f in dataclasses.fields(cls) if f.init]
+            vals = dict(zip([f.name for f in flds], args))
+            vals.update(kwargs)
+            for f in flds:
+                if f.name not in vals:
+                    if f.default is not dataclasses.MISSING:
+                        vals[f.name] = f.default
+                    elif f.default_factory is not dataclasses.MISSING:
+                        vals[f.name] = f.default_factory()
+                    else:
+                        raise PyRaise(TypeError(f"{cls.__name__}() missing argument {f.name}"))
+            obj.fields.update(vals)
+            return obj
         init = cls.__init__
         if isinstance(init, types.FunctionType):
             self._call_pyfunc(init, [obj] + list(args), kwargs, init)
@@ -897,9 +915,27 @@ class Interp:
         spec = self.loops.get(key)
         if spec is not None and isinstance(it, (SSeq, RevSeq, SSet)):
             return self._for_with_invariant(node, env, it, spec, key)
-        items = self.iterate(it)
+        if isinstance(it, Sym) or isinstance(it, (SDict,)):
+            items = self.iterate(it)
+        else:
+            # concrete iterables: Python's own (live) iterator protocol, so that mutation of the
+            # container during the loop behaves as in CPython
+            try:
+                items = iter(it)
+            except Exception as e:
+                raise PyRaise(e)
         broke = False
-        for x in items:
+        while True:
+            try:
+                x = next(items) if not isinstance(items, list) else (items.pop(0) if items else _StopMarker)
+            except StopIteration:
+                break
+            except (PathEnd, Infeasible, Undecided, EngineError, PyRaise):
+                raise
+            except Exception as e:
+                raise PyRaise(e)
+            if x is _StopMarker:
+                break
             self.assign_target(node.target, x, env)
             try:
                 self.exec_block(node.body, env)
@@ -1465,6 +1501,9 @@ def _run_closure(self, clo, args, kwargs):
 
 
 Interp.run_closure = _run_closure
+
+
+_StopMarker = object()
 
 
 class RevSeq(SSeq):
